@@ -2,6 +2,7 @@ package configmigrate
 
 import (
 	"fmt"
+	"math"
 )
 
 type (
@@ -32,6 +33,14 @@ func fieldVal[T any](obj yobj, key string) (v T, ok bool, err error) {
 	}
 
 	v, ok = val.(T)
+	if f, isFloat := val.(float64); !ok && isFloat && f == math.Trunc(f) && math.Abs(f) < 1<<63 {
+		// The encoder writes a float with an exact integer value without the
+		// fractional part, so it is an integer the next time the file is
+		// read.  Accept it as one here as well, so that the result doesn't
+		// depend on whether the file has been written between two migrations.
+		v, ok = any(int(f)).(T)
+	}
+
 	if !ok {
 		return v, false, fmt.Errorf("unexpected type of %q: %T", key, val)
 	}
